@@ -139,3 +139,12 @@ Proof.
     + intro Hc. destruct (M2 Hc) as [A [B C]]. destruct (I2 A) as [A' [B' C']]. split; [assumption|]. split; [congruence|].
       eapply incl_tran; eauto.
 Qed.
+
+(* a host pool that is no longer in the table has been closed or its Close is queued -- at any time,
+   whatever it held when it was removed *)
+Theorem policy_pool_removed_closed_lemma ls s p : pprun ppool_init ls = Some s -> (p < pp_next s)%nat ->
+  ~ In p (map snd (pp_map s)) -> In p (pp_closedpools s) \/ In p (pp_detached s).
+Proof.
+  intros H Hp Hn. destruct (ppinv_run _ _ _ ppinv_init H) as [I1 _].
+  destruct (I1 p Hp) as [H1|[H1|H1]]; tauto.
+Qed.
